@@ -93,6 +93,34 @@ theorem step_refines {m : DState} {s : S} (hR : R m s) (op : DOp) :
       hI2, hmax, hheld, (by dsimp only; rw [hun, hpend, hback]), (by dsimp only; rw [hback])⟩
     dsimp only [DOp.toSpec, step]
     rw [if_pos ⟨by rw [hback]; exact bn, by rw [hw, hheld, hpend, hback]; rfl⟩]
+  | commit n =>
+    right
+    have bi : (m.c.buf.Commit n).Inv ∧ (m.c.buf.Commit n).data = m.c.buf.data ∧ (m.c.buf.Commit n).cap = m.c.buf.cap ∧
+        m.c.buf.ri ≤ (m.c.buf.Commit n).ri := by
+      obtain ⟨h0, h1, h2, h3, h4, h5⟩ := hb
+      unfold Buf.Commit
+      by_cases hn : n ≤ 0
+      · rw [if_pos hn]; exact ⟨⟨h0, h1, h2, h3, h4, h5⟩, rfl, rfl, Int.le_refl _⟩
+      · rw [if_neg hn]
+        dsimp only
+        by_cases hw : n > m.c.buf.wi - m.c.buf.ri
+        · rw [if_pos hw]; refine ⟨⟨h0, ?_, ?_, h3, h4, h5⟩, rfl, rfl, ?_⟩ <;> (try dsimp only) <;> omega
+        · rw [if_neg hw]; refine ⟨⟨h0, ?_, ?_, h3, h4, h5⟩, rfl, rfl, ?_⟩ <;> (try dsimp only) <;> omega
+    obtain ⟨bi, bd, bc, br⟩ := bi
+    simp only [DState.step, ebind_ok, observe_eq bi, epure]
+    have hI2 : ({ m.c with buf := m.c.buf.Commit n } : Codec).Inv :=
+      ⟨bi, (by dsimp only; omega), hmx, fun h => (by have := hr h; dsimp only; omega)⟩
+    refine ⟨_, _, none, rfl, (fun k hk => by cases hk), ?_⟩
+    have hun : ({ m.c with buf := m.c.buf.Commit n } : Codec).unconsumed = m.c.unconsumed := by
+      unfold Codec.unconsumed Codec.held
+      dsimp only
+      rw [bd]
+    have hw := wi_eq hI2
+    rw [hun] at hw
+    dsimp only at hw
+    refine ⟨{ s with pending := s.pending ++ [] }, ?_, hI2, hmax, hheld, (by dsimp only; rw [hun, hpend, List.append_nil]), hback⟩
+    dsimp only [DOp.toSpec, step]
+    rw [if_pos (by rw [hw, hheld, hpend, List.append_nil]; rfl)]
   | decode cap' =>
     cases hp : parse m.c.max m.c.unconsumed with
     | needMore =>
@@ -314,6 +342,7 @@ theorem noRead_specTrace (tr : Trace) (h : FeedOnly (tr.map (·.1))) : NoRead (s
   cases op with
   | feed b c => cases hc
   | decode c => cases hc
+  | commit n => cases hc
   | read b => exact h (.read b) (List.mem_map.mpr ⟨_, hx, rfl⟩) b rfl
 
 /-- **The frames are the frames of the byte stream**: whatever the segmentation, wherever `Decode` was called
